@@ -30,7 +30,7 @@ struct C {
     needs_union_int64_double: bool,
     needs_union_double_int64: bool,
     needs_async: bool,
-    prim_names: HashSet<String>,
+    prim_names: HashMap<String, TypeId>,
     world: String,
     sizes: SizeAlign,
     renamed_interfaces: HashMap<WorldKey, String>,
@@ -1892,17 +1892,22 @@ impl InterfaceGenerator<'_> {
                     let (defined, name) = if is_prim {
                         let namespace = self.r#gen.world.to_snake_case();
                         let name = format!("{namespace}_{encoded}_t");
-                        let new_prim = self.r#gen.prim_names.insert(name.clone());
-                        (!new_prim, name)
+                        let first = *self.r#gen.prim_names.entry(name.clone()).or_insert(ty);
+                        ((first != ty).then_some(first), name)
                     } else {
                         let namespace = self.owner_namespace(ty);
-                        (false, format!("{namespace}_{encoded}_t"))
+                        (None, format!("{namespace}_{encoded}_t"))
                     };
 
                     let prev = self.r#gen.type_names.insert(ty, name);
                     assert!(prev.is_none());
 
-                    if defined {
+                    if let Some(first) = defined {
+                        // The C type was already emitted for another `TypeId`
+                        // with the same name; share its free helper, if any.
+                        if let Some(helper) = self.r#gen.dtor_funcs.get(&first).cloned() {
+                            self.r#gen.dtor_funcs.insert(ty, helper);
+                        }
                         continue;
                     }
 
